@@ -26,6 +26,7 @@ EPIN = os.environ.get('VH_EPIN', '')            # '0'/'1' per leading entry of P
 VARIANTS = os.environ.get('VH_VARIANTS', '1') == '1'   # 0: predecessor lists always ascending and always lists
 NA = int(os.environ.get('VH_NA', '2'))          # insert_workflow / add_operator: tasks of A (1..3)
 NB = int(os.environ.get('VH_NB', '2'))          # tasks of B (1..3)
+APIN = os.environ.get('VH_APIN', '')            # '0'/'1' pins for A's edges a01, a02, a12 (leading ones)
 PM = int(os.environ.get('VH_PM', '0'))          # insert_workflow predecessors: 0 None, 1 one Task, 2 list
 SHAPE = os.environ.get('VH_SHAPE', 'A')
 REAL = os.environ.get('VH_REAL_DASK') == '1'
@@ -462,7 +463,8 @@ def replace_task__twin(e01: bool, e02: bool, e12: bool, e03: bool, e13: bool, e2
 
 def _build_ab(a01, a02, a12, b01, b02, b12, s, calls):
     """Two declared graphs: A over ids 0..NA-1, B over ids 3..3+NB-1."""
-    ea = [(i, j) for (i, j), e in zip(PAIRS[:3], (a01, a02, a12)) if j < NA and e]
+    ae = [(APIN[x] == '1') if x < len(APIN) else e for x, e in enumerate((a01, a02, a12))]
+    ea = [(i, j) for (i, j), e in zip(PAIRS[:3], ae) if j < NA and e]
     eb = [(3 + i, 3 + j) for (i, j), e in zip(PAIRS[:3], (b01, b02, b12)) if j < NB and e]
     objs = {}
     for i in range(NA):
@@ -659,12 +661,12 @@ def static_str_inputs__twin(e01: bool, e02: bool, e12: bool, a: str, b: str, c: 
 # every obligation once concretely at import so that all networkx entry points used above are already built.
 
 def _warm():
-    global N, EPIN, NA, NB, PM, VARIANTS
-    saved = (N, EPIN, NA, NB, PM, VARIANTS)
+    global N, EPIN, NA, NB, PM, VARIANTS, APIN
+    saved = (N, EPIN, NA, NB, PM, VARIANTS, APIN)
     ok = []
     try:
         T, F = True, False
-        EPIN, VARIANTS = '', True
+        EPIN, VARIANTS, APIN = '', True, ''
         N = 4
         ok.append(exec_add(T, T, T, F, F, T, F, F, F, F, T, F, 1, 2, 3, 4, 5))
         N = 3
@@ -686,7 +688,7 @@ def _warm():
         w.add_task(t)
         Workflow(w).get_upstream_tasks(t)
     finally:
-        N, EPIN, NA, NB, PM, VARIANTS = saved
+        N, EPIN, NA, NB, PM, VARIANTS, APIN = saved
     return ok
 
 
